@@ -1097,6 +1097,21 @@ func (tr *Tr) libCall(pk, name string, call *ast.CallExpr, env *Env, k econt) st
 					default:
 						tr.fail(call.Args[ai+1], "%%d of a value of type %v", a.typ)
 					}
+				case 'v':
+					// %v of an integer whose type declares none of the methods fmt looks for is %d
+					if a.typ.Name == "" || !(a.typ.isSigned() || a.typ.isUnsigned()) {
+						tr.fail(call.Args[ai+1], "%%v of a value of type %v (only a named integer type without String/Error/Format/GoString)", a.typ)
+					}
+					for _, m := range []string{"String", "Error", "Format", "GoString"} {
+						if _, has := tr.p.funcs[a.typ.Name+"."+m]; has {
+							tr.fail(call.Args[ai+1], "%%v of a value of type %v, which declares %s", a.typ, m)
+						}
+					}
+					if a.typ.isSigned() {
+						parts = append(parts, "fmt_d_Z "+paren(a.term))
+					} else {
+						parts = append(parts, "fmt_d_N "+paren(a.term))
+					}
 				case 's':
 					if a.typ.K != KString || a.typ.Name != "" {
 						tr.fail(call.Args[ai+1], "%%s of a value of type %v", a.typ)
@@ -1301,6 +1316,13 @@ func (tr *Tr) callMulti(call *ast.CallExpr, env *Env, k func(*Env, []Val) string
 					})
 				}
 				tr.fail(call, "regexp method %s", f.Sel.Name)
+			case rt.K == KIface && rt.Name == "Term" && f.Sel.Name == "String" && len(call.Args) == 0:
+				// Term.String() through the interface: NOT translated (time formatting, hex, %d);
+				// it is the oracle parameter tstr of the function (the theorems hold for every tstr)
+				if !tr.fn.usesTstr {
+					tr.fail(call, "internal: Term.String() in a function without the oracle tstr")
+				}
+				return k(e1, []Val{{term: "tstr " + paren(recv.term), typ: tString}})
 			case rt.K == KIface || rt.K == KAtom:
 				fi := tr.dispatcher(rt, f.Sel.Name, call)
 				return tr.evalList(call.Args, e1, func(e2 *Env, vs []Val) string {
@@ -1362,6 +1384,12 @@ func (tr *Tr) emitCall(call *ast.CallExpr, fi *FuncInfo, recv *Val, argExprs []a
 	var terms []string
 	if fi.usesRx {
 		terms = append(terms, "rx")
+	}
+	if fi.usesTstr {
+		if !tr.fn.usesTstr {
+			tr.fail(call, "internal: call of a function with the oracle tstr from one without")
+		}
+		terms = append(terms, "tstr")
 	}
 	e := env
 	var mutB []*Binding
@@ -1548,6 +1576,9 @@ func (tr *Tr) dispatcher(rt *T, method string, at ast.Node) *FuncInfo {
 		}
 		if fi.usesRx {
 			d.usesRx = true
+		}
+		if fi.usesTstr {
+			tr.fail(at, "method %s through the interface %s: an implementation needs the oracle tstr", method, iname)
 		}
 	}
 	// an implementation writes through all the pointer parameters the dispatcher threads, or through none
